@@ -2,7 +2,7 @@
 """seeded/RESULTS.md from the matrix runs (.build/matrix*.tsv; later files override earlier rows)."""
 import json, glob, os
 rows = {}
-for fn in ["/verif/.build/matrix.tsv", "/verif/.build/matrix_r2.tsv", "/verif/.build/matrix_r3.tsv", "/verif/.build/matrix_r4.tsv"]:
+for fn in ["/verif/.build/matrix.tsv", "/verif/.build/matrix_r2.tsv", "/verif/.build/matrix_r3.tsv", "/verif/.build/matrix_r4.tsv", "/verif/.build/matrix_r5a.tsv", "/verif/.build/matrix_r5b.tsv", "/verif/.build/matrix_r5c.tsv"]:
     if not os.path.exists(fn):
         continue
     for l in open(fn):
@@ -13,7 +13,7 @@ for fn in ["/verif/.build/matrix.tsv", "/verif/.build/matrix_r2.tsv", "/verif/.b
 out = ["# Seeded changes vs. the check of the property they break", "",
        "Produced by `tools/matrix.sh` on the tree after the five `fix:` commits and the hook commit (quick tier, `VERIF_SEED` unset).",
        "Each row: the change, the check that was run, its exit code (1 = `VIOLATION` reported, 0 = missed, 2 = machinery failure), wall time, first violating job.",
-       "Round-2 rows that were first missed and are caught after an improvement are listed with the final result; the misses and what was changed are in DESIGN.md section 7.", "",
+       "Rows that were first missed and are caught after an improvement are listed with the final result; the misses and what was changed are in DESIGN.md section 7.", "",
        "| seeded change | check | exit | wall | changed | needs to manifest | first violating job |", "|---|---|---|---|---|---|---|"]
 caught = 0
 for name in sorted(rows):
@@ -27,7 +27,8 @@ for name in sorted(rows):
         job = job.strip()[:80]
     m = json.load(open(f"/verif/seeded/{name}/meta.json"))
     caught += rc == "1"
-    out.append(f"| {name} | {pid} | {rc} | {wall} | {m.get('changed','')} | {m.get('needs_to_manifest','')} | {job} |")
+    note = f" (written for {name.split('-')[0]}; {m['violates']})" if m.get("checked_with") else ""
+    out.append(f"| {name} | {pid} | {rc} | {wall} | {m.get('changed','')}{note} | {m.get('needs_to_manifest','')} | {job} |")
 out += ["", f"Caught: {caught} of {len(rows)}."]
 open("/verif/seeded/RESULTS.md", "w").write("\n".join(out) + "\n")
 print(caught, len(rows), [n for n in rows if rows[n][2] != "1"])
